@@ -1,5 +1,6 @@
 import DnpModel.Generated.Config
 import DnpModel.Generated.LoadTable
+import DnpModel.Ops
 /-
   L1: dnplab/io/load.py — the autodetect decision chain, the dispatch table, the SI scaling of
   configured attributes — and dnplab/processing/conversion.py's dBm/W helpers (structure only;
@@ -116,5 +117,14 @@ def dBm2w {R : Type} [Div R] [Mul R] [OfNat R 10] [OfNat R 1000] (F : PowFns R) 
 
 def w2dBm {R : Type} [Mul R] [OfNat R 10] [OfNat R 1000] (F : PowFns R) (w : R) : R :=
   10 * F.log10 (1000 * w)
+
+/-- `load([p₀, p₁, …], dim, coord)`: every path is loaded on its own (in the order GIVEN) and the objects are stacked
+    along a new last dimension carrying the supplied coordinates -/
+def loadMany {κ α : Type} [Inhabited α] [Inhabited κ] (loadOne : String → Except Err (Data κ α)) (arange : Nat → List κ)
+    (paths : List String) (dim : Option String) (coord : List κ) : Except Err (Data κ α) :=
+  if coord.length ≠ paths.length then .error .value
+  else do
+    let ds ← paths.mapM loadOne
+    Data.concat arange ds (dim.getD "unnamed") (if coord.length = 0 then none else some coord)
 
 end Dnp.Load
